@@ -6,6 +6,7 @@ import (
 
 	"google.golang.org/protobuf/proto"
 	"google.golang.org/protobuf/reflect/protoreflect"
+	"google.golang.org/protobuf/types/known/anypb"
 )
 
 var allZones = []string{"UTC", "Asia/Kolkata", "America/St_Johns", "Pacific/Chatham", "Australia/Lord_Howe", "Europe/Dublin"}
@@ -85,6 +86,9 @@ func (g *genCtx) genVars(n int, alias float64) {
 		case g.r.p(alias * 0.3):
 			ri := g.r.n(len(g.res))
 			vs = VarSpec{Kind: "node", Res: ri, Node: g.r.n(countNodes(g.res[ri]))}
+		case g.r.p(alias * 0.12):
+			vs = VarSpec{Kind: "cr", Res: g.r.n(len(g.res))}
+			kind = kComplex
 		case i > 0 && g.c.Vars[i-1].Kind == "coll" && g.r.p(alias*0.5):
 			l := len(g.c.Vars[i-1].Items)
 			f := g.r.n(l + 1)
@@ -103,7 +107,9 @@ func (g *genCtx) genVars(n int, alias float64) {
 				vs.Spare = 1 + g.r.n(3)
 			}
 			for j := 0; j < m; j++ {
-				if g.r.p(0.5) {
+				if g.r.p(alias * 0.15) {
+					vs.Items = append(vs.Items, VarSpec{Kind: "cr", Res: g.r.n(len(g.res))})
+				} else if g.r.p(0.5) {
 					ri := g.r.n(len(g.res))
 					vs.Items = append(vs.Items, VarSpec{Kind: "node", Res: ri, Node: g.r.n(countNodes(g.res[ri]))})
 				} else {
@@ -224,7 +230,16 @@ func (g *genCtx) simplePatchOp(ri int) (ProgSpec, Op, bool) {
 		case 1:
 			op.PatchOp = "replace"
 			rg := &resGen{r: g.r, maxDepth: 2, fill: 0.4, budget: 20}
-			v := encodeMessage(rg.genValueFor(nf.msg.Descriptor()))
+			val := rg.genValueFor(nf.msg.Descriptor())
+			if isEnumCode(nf.msg.Descriptor()) && g.r.p(0.6) {
+				// the typed code given as a plain String: goes through patch's code normalisation
+				if sc, ok := fhirScalar(val); ok && strings.HasPrefix(sc, "s:") {
+					s := newMessage(findDesc("String"))
+					s.Set(s.Descriptor().Fields().ByName("value"), protoreflect.ValueOfString(sc[2:]))
+					val = s.Interface()
+				}
+			}
+			v := encodeMessage(val)
 			op.Value = &v
 		default:
 			op.PatchOp = "move"
@@ -388,7 +403,7 @@ func genC04(seed uint64, run int, tier string) *Case {
 // (values, positions, tape) still come from the seed.
 
 var c04Shapes = []func(r rng, tier string) *Case{
-	shapeWhereSwitch, shapeTickBetweenNow, shapeTZLiteral, shapePatchShared, shapeStallCompile, shapeClockExact, shapeOrder, shapeTypedCallbacks, shapePatterns, shapeTypeHistory,
+	shapeWhereSwitch, shapeTickBetweenNow, shapeTZLiteral, shapePatchShared, shapeStallCompile, shapeClockExact, shapeOrder, shapeTypedCallbacks, shapePatterns, shapeTypeHistory, shapeCallerChanges,
 }
 
 func baseShape(r rng, tier, name string, types ...string) *genCtx {
@@ -668,6 +683,43 @@ func shapeTypeHistory(r rng, tier string) *Case {
 func (p ProgSpec) withArgs(a ...any) ProgSpec {
 	p.Src = fmt.Sprintf(p.Src, a...)
 	return p
+}
+
+// shapeCallerChanges: the result of an evaluation is a function of the inputs as they are at
+// that moment. A client evaluates on a private copy, changes the copy the way a caller may
+// (including re-marshalling its contained entries in place) and evaluates again.
+func shapeCallerChanges(r rng, tier string) *Case {
+	g := baseShape(r, tier, "caller-changes", pick(r, []string{"Patient", "Observation", "Encounter"}))
+	c := g.c
+	// make sure there is something contained
+	root := g.res[0].ProtoReflect()
+	if cf := root.Descriptor().Fields().ByName("contained"); cf != nil && root.Get(cf).List().Len() == 0 {
+		rg := &resGen{r: r, maxDepth: 3, fill: 0.5, budget: 60}
+		for i := 0; i < 1+r.n(2); i++ {
+			cr := newMessage(findDesc("ContainedResource"))
+			rg.fillContained(cr, 1)
+			a, _ := anypb.New(cr.Interface())
+			root.Mutable(cf).List().Append(protoreflect.ValueOfMessage(a.ProtoReflect()))
+		}
+		c.Resources[0] = encodeMessage(g.res[0])
+	}
+	c.Knobs.SwitchThr = 77
+	rn := string(root.Descriptor().Name())
+	for _, src := range []string{"%s.contained.id", "%s.id", "%s.contained.descendants().count()", "%s.descendants().where($this is id)", "%s.contained.children().first()", "%s.contained.id.first() & %s.id", "%s.contained.where(id.exists()).id"} {
+		c.Programs = append(c.Programs, ProgSpec{Src: strings.ReplaceAll(src, "%s", rn)})
+	}
+	for ci := 0; ci < 2+r.n(2); ci++ {
+		var ops []Op
+		for oi := 0; oi < 4; oi++ {
+			k := "evalmut"
+			if r.p(0.3) {
+				k = "eval"
+			}
+			ops = append(ops, Op{Kind: k, Prog: r.n(len(c.Programs)), Res: []int{0}})
+		}
+		c.Clients = append(c.Clients, ops)
+	}
+	return c
 }
 
 func shapeClockExact(r rng, tier string) *Case {
